@@ -119,16 +119,18 @@ Theorem dot_dispatch_matches_source :
 Proof. exact dot_dispatch_matches_source_proof. Qed.
 Print Assumptions dot_dispatch_matches_source.
 
-(* matmul's case chain (tests translated from the source): dot for b.ndim <= 2; dot and move the first
-   axis for a.ndim <= 2; squeeze a / squeeze b when the leading extents multiply to 1; else batch. *)
+(* matmul's case chain (tests translated from the source): 0-d operands are rejected (ValueError, like np.matmul);
+   dot for b.ndim <= 2; dot and move the first axis for a.ndim <= 2; squeeze a / squeeze b when the leading extents
+   multiply to 1; else batch. *)
 Theorem matmul_route_spec :
   forall (a_ndim b_ndim a_lead b_lead : Z),
     matmul_route a_ndim b_ndim a_lead b_lead
-    = Some (if b_ndim <=? 2 then MmDot
-            else if a_ndim <=? 2 then MmDotMoveAxis
-            else if (a_ndim <=? b_ndim) && (a_lead =? 1) then MmSqueezeA
-            else if (b_ndim <=? a_ndim) && (b_lead =? 1) then MmSqueezeB
-            else MmBatch).
+    = if (a_ndim =? 0) || (b_ndim =? 0) then None
+      else Some (if b_ndim <=? 2 then MmDot
+                 else if a_ndim <=? 2 then MmDotMoveAxis
+                 else if (a_ndim <=? b_ndim) && (a_lead =? 1) then MmSqueezeA
+                 else if (b_ndim <=? a_ndim) && (b_lead =? 1) then MmSqueezeB
+                 else MmBatch).
 Proof. exact matmul_route_spec_proof. Qed.
 Print Assumptions matmul_route_spec.
 
